@@ -324,6 +324,44 @@ func checkC07(c *Check) {
 							a := ci.Common().Args
 							ok := vParam(lit, 0)(a[0]) && vParam(lit, 1)(a[1]) && vNil(a[2])
 							stored = ok
+							continue
+						}
+						// one hop: the closure calls a chain function built beforehand (a captured function value whose
+						// definition is a literal doing the same with its own parameters), passing (w, req, nil)
+						a := ci.Common().Args
+						if len(a) != 3 || !vParam(lit, 0)(a[0]) || !vParam(lit, 1)(a[1]) || !vNil(a[2]) {
+							continue
+						}
+						var inner *ssa.Function
+						fv := strip(ci.Common().Value)
+						if ld, isLd := fv.(*ssa.UnOp); isLd {
+							if cell := cellOf(ld); cell != nil {
+								for _, st := range cellStores(cell, 0) {
+									if m2, isMC := strip(st.Val).(*ssa.MakeClosure); isMC {
+										inner, _ = m2.Fn.(*ssa.Function)
+									}
+								}
+							}
+						} else if f, isFV := fv.(*ssa.FreeVar); isFV {
+							if b := freeVarBinding(f); b != nil {
+								if m2, isMC := strip(b).(*ssa.MakeClosure); isMC {
+									inner, _ = m2.Fn.(*ssa.Function)
+								}
+							}
+						}
+						if m2, isMC := fv.(*ssa.MakeClosure); isMC {
+							inner, _ = m2.Fn.(*ssa.Function)
+						}
+						if inner == nil || len(inner.Params) != 3 {
+							continue
+						}
+						for _, c2 := range callsIn(inner, func(n string, cm *ssa.CallCommon) bool { return n == "dynamic" }) {
+							if vField(vAny, "contextCreator")(c2.Common().Value) {
+								b := c2.Common().Args
+								if vParam(inner, 0)(b[0]) && vParam(inner, 1)(b[1]) && vParam(inner, 2)(b[2]) {
+									stored = true
+								}
+							}
 						}
 					}
 				}
@@ -636,6 +674,13 @@ func newCursorAnalysis(p *Prog, fns []*ssa.Function) *cursorAnalysis {
 // notMinusOne: edges on which idx (a strings.Index result) is known >= 0.
 func notMinusOne(fn *ssa.Function, idx ssa.Value) EdgeSet {
 	i := vIs(idx)
+	if c0, _, isCut := cutIndexValue(idx); isCut {
+		// len(before) of one strings.Cut call, in any of its occurrences
+		i = func(v ssa.Value) bool {
+			c1, _, ok := cutIndexValue(v)
+			return ok && c1 == c0
+		}
+	}
 	return union(
 		edgesWhere(fn, cCmp(token.EQL, i, vConstInt(-1)), false),
 		edgesWhere(fn, cCmp(token.LSS, i, vConstInt(0)), false),
@@ -645,6 +690,13 @@ func notMinusOne(fn *ssa.Function, idx ssa.Value) EdgeSet {
 
 // indexFrom: v == strings.Index(path[c:], "/") (or IndexByte); returns c.
 func indexFrom(v ssa.Value, path ssa.Value) (ssa.Value, bool) {
+	if c, sep, isCut := cutIndexValue(v); isCut && sep == "/" {
+		sl, ok := strip(c.Call.Args[0]).(*ssa.Slice)
+		if !ok || strip(sl.X) != strip(path) || sl.High != nil || sl.Low == nil {
+			return nil, false
+		}
+		return strip(sl.Low), true
+	}
 	cl := asCall(v)
 	if cl == nil {
 		return nil, false
